@@ -7,3 +7,34 @@ package certificates
 //@ func LoadPublicKey
 //@   trusted
 //@   modifies nothing
+
+// ---- C20: the request carries exactly the requested names; the certificate copies the request's names and
+// ---- is signed by the given authority
+
+//@ spec issan(id asn1.ObjectIdentifier) bool := asn1.OIDEqual(id, utils.OIDSubjectAltName)
+
+//@ func CreateCertReq
+//@   tags C20
+//@   requires opts != nil
+//@   site call MakeReceptorSAN NAMES: [C20] requires arg0 == opts.DNSNames && arg1 == opts.IPAddresses && arg2 == opts.NodeIDs
+//@   site call CreateCertificateRequest SANEXT: [C20] requires arg1 != nil && len(arg1.ExtraExtensions) == 1 && arg1.ExtraExtensions[0].Value == san.Value
+//@        && arg1.ExtraExtensions[0].Id == san.Id && arg1.Subject.CommonName == opts.CommonName && arg2 == box(privateKey)
+//@        && len(arg1.DNSNames) == 0 && len(arg1.IPAddresses) == 0 && len(arg1.EmailAddresses) == 0 && len(arg1.URIs) == 0
+//@   site call ParseCertificateRequest SAME: [C20] requires arg0 == reqBytes
+
+//@ func SignCertReq
+//@   tags C20
+//@   requires req != nil && ca != nil && opts != nil && ca.Certificate != nil
+//@   site call CreateCertificate AUTHORITY: [C20] requires arg1 != nil && arg2 == ca.Certificate && arg4 == box(ca.PrivateKey) && arg3 == req.PublicKey && !arg1.IsCA
+//@        && arg1.NotBefore == opts.NotBefore && arg1.NotAfter == opts.NotAfter && arg1.Subject.CommonName == req.Subject.CommonName
+//@   site call CreateCertificate SANCOPY: [C20] requires forall i int :: 0 <= i && i < len(req.Extensions) && issan(req.Extensions[i].Id)
+//@        && (forall j int :: 0 <= j && j < i ==> !issan(req.Extensions[j].Id))
+//@        ==> len(arg1.ExtraExtensions) == 1 && arg1.ExtraExtensions[0].Value == req.Extensions[i].Value && arg1.ExtraExtensions[0].Id == req.Extensions[i].Id
+//@             && len(arg1.DNSNames) == 0 && len(arg1.IPAddresses) == 0
+//@   site call CreateCertificate NOSAN: [C20] requires (forall i int :: 0 <= i && i < len(req.Extensions) ==> !issan(req.Extensions[i].Id))
+//@        ==> len(arg1.ExtraExtensions) == 0 && arg1.DNSNames == req.DNSNames && arg1.IPAddresses == req.IPAddresses
+//@   site call CreateCertificate NOEXTRA: [C20] requires len(arg1.EmailAddresses) == 0 && len(arg1.URIs) == 0
+//@   loop range req.Extensions
+//@     invariant NOTYET: !found && len(certTemplate.ExtraExtensions) == 0 && len(certTemplate.DNSNames) == 0 && len(certTemplate.IPAddresses) == 0
+//@        && forall j int :: 0 <= j && j <= rangeindex ==> !issan(req.Extensions[j].Id)
+//@   site call ParseCertificate SAME: [C20] requires arg0 == certBytes
